@@ -1222,7 +1222,8 @@ namespace avel {
         #elif defined(AVEL_SSE2)
         //TODO: Consider alternative approaches
         auto compared = _mm_cmpeq_epi32(decay(x), _mm_setzero_si128());
-        compared = _mm_or_si128(compared, _mm_shuffle_epi32(compared, 0xB1));
+        // a 64-bit lane is zero only if BOTH of its halves are zero
+        compared = _mm_and_si128(compared, _mm_shuffle_epi32(compared, 0xB1));
         return 2 - popcount(_mm_movemask_epi8(compared)) / sizeof(std::uint64_t);
 
         #endif
